@@ -131,7 +131,8 @@ def gen_source(rng):
                     rng, ("clean_qq", "suppress_lot_divs", "qq_depth_min",
                           "segment", "default_ns", "ocr_scrub"), hi=2),
                 "parse_qq": rng.random() < 0.8,
-                "source": rng.choice((None, "doc 17", 42, "@vol 3", "=A1", 0))}
+                "source": rng.choice((None, "doc 17", 42, "@vol 3", "=A1", 0,
+                                      {"__bytes": "DOC-0017"}, 2.5, True))}
     if r < 0.8:
         return {"kind": "desc", "text": rng.choice(corpus.HANDPICKED),
                 "config": None, "parse_qq": True, "source": None}
@@ -377,6 +378,13 @@ def rows_match(model_rows, got_rows):
 # workload execution (inside a fork; sources already parsed by the parent)
 # --------------------------------------------------------------------------
 
+def _plan_value(v):
+    """Plan data -> the Python value it stands for (JSON has no bytes)."""
+    if isinstance(v, dict) and "__bytes" in v:
+        return v["__bytes"].encode("ascii")
+    return v
+
+
 def build_sources(pytrs, specs):
     out = []
     for s in specs:
@@ -387,7 +395,8 @@ def build_sources(pytrs, specs):
                 out.append(pytrs.PLSSDesc(s["text"], wait_to_parse=True))
             elif s["kind"] == "desc":
                 d = pytrs.PLSSDesc(s["text"], config=s["config"],
-                                   parse_qq=s["parse_qq"], source=s["source"])
+                                   parse_qq=s["parse_qq"],
+                                   source=_plan_value(s["source"]))
                 out.append(d)
             else:
                 t = pytrs.Tract(s["text"], trs=s["trs"],
